@@ -20,7 +20,8 @@ VARIANTS = [
     "late abortive kick (pause, RST) with slow outgoing listener",
     "reused plugin message ids, ids with bit 31 set",
     "request sizes T-1/T/T+1",
-    "session-service reply faults"
+    "session-service reply faults",
+    "application thread answering taken-over plugin requests (forced) while the encryption response goes out"
 ]
 RUNS = {'quick': 5000, 'thorough': 200000}
 WALL_CAP = {'quick': 200, 'thorough': 3300}
@@ -57,6 +58,34 @@ JOIN_REPLIES = [
 
 
 def scenario_for(seed, index, tier, _depth=0, _proto=None):
+    sc = _scenario_for(seed, index, tier, _depth, _proto)
+    if _depth:
+        return sc
+    lg = sc['logins'][0]
+    kinds = [s_[0] for s_ in lg['steps']]
+    if len(sc['logins']) == 1 and \
+            lg['disc'] is None and 'encrypt' in kinds and \
+            not any(k.startswith('compress') for k in kinds) and \
+            'plugin' in kinds[:kinds.index('encrypt')] and \
+            not lg.get('success_at_once') and \
+            make_rng('answer-thread', ID, seed, index).random() < 0.6:
+        # the application takes over the plugin requests that come before
+        # the encryption request and has ANOTHER thread answer them (forced
+        # writes) the moment the encryption response is on its way out; the
+        # server does not wait for those answers before it asks for
+        # encryption.  Whoever gets to write first, everything after the
+        # encryption response is encrypted.
+        sc['answer_thread'] = True
+        sc['user_plugin_listener'] = True
+        lg['pipeline'] = True
+        conn = sc['server']['conns'][-1]
+        if not conn.get('pipeline_plugins'):
+            conn['pipeline_plugins'] = 'encrypt'
+        sc['sched']['granularity'] = 'line'
+    return sc
+
+
+def _scenario_for(seed, index, tier, _depth=0, _proto=None):
     rng = make_rng('scenario', ID, seed, index, _depth)
     sup = common.supported()
     if rng.random() < 0.6:
@@ -152,7 +181,7 @@ def scenario_for(seed, index, tier, _depth=0, _proto=None):
     if _depth == 0 and rng.random() < 0.3:
         # the same Connection object logs in a second time: nothing of the
         # first attempt (however it ended) may leak into the second
-        again = scenario_for(seed, index, tier, _depth=1, _proto=proto)
+        again = _scenario_for(seed, index, tier, _depth=1, _proto=proto)
         second = again['logins'][0]
         if rng.random() < 0.6:
             # reuse the first script's plugin message ids
@@ -211,6 +240,10 @@ def scenario_for(seed, index, tier, _depth=0, _proto=None):
 
 
 def policy(rng, scenario):
+    if scenario.get('answer_thread'):
+        return Policy(p_sched=rng.choice([0.02, 0.1, 0.3]),
+                      p_event=rng.choice([0, 0.1, 0.3]),
+                      p_short=0.3, p_seg=0.3, name='c10-answer-thread')
     return Policy(p_sched=rng.choice([0, 0.01, 0.05]),
                   p_event=rng.choice([0, 0.1, 0.3]),
                   p_short=rng.choice([0.1, 0.6]),
@@ -269,8 +302,33 @@ def execute(scenario, tape):
             if p.packet_name == 'keep alive':
                 cur()['reactor_at_ka'] = type(conn.reactor).__name__
         conn.register_packet_listener(on_packet, Packet, early=True)
+        if scenario.get('answer_thread'):
+            asked = []
+
+            def on_enc_response(p):
+                st['enc_response_on_its_way'] = True
+                w.sleep(300)
+
+            def answerer():
+                w.wait_until(lambda: st.get('enc_response_on_its_way') or
+                             cur()['errs'] or cur()['exits'], 30000000)
+                st['answerer_took_over'] = True
+                for p in list(asked):
+                    w.api('forced-answer', conn.write_packet,
+                          serverbound.login.PluginResponsePacket(
+                              message_id=p.message_id, successful=True,
+                              data=b'user:' + bytes(p.data)[:8]),
+                          force=True)
+            conn.register_packet_listener(
+                on_enc_response, serverbound.login.EncryptionResponsePacket,
+                early=True, outgoing=True)
+            w.sim.spawn(answerer, 'answerer')
         if scenario['user_plugin_listener']:
             def on_plugin(p):
+                if scenario.get('answer_thread') and \
+                        not st.get('enc_response_on_its_way'):
+                    asked.append(p)
+                    raise IgnorePacket
                 conn.write_packet(serverbound.login.PluginResponsePacket(
                     message_id=p.message_id, successful=True,
                     data=b'user:' + bytes(p.data)[:8]))
